@@ -688,6 +688,68 @@ static int op_mbs(char **w, int nw)
 	return 1;
 }
 
+/* mbsq ps|null DSTLEN|null SEG1 SEG2 [SEG3]: consecutive calls on ONE conversion state (an explicit
+ * mbstate_t, or ps == NULL = the function's internal state); every call converts one whole segment into a
+ * fresh destination.  Per call: ret@offset/errno/mbsinit/dst.  Stops after a failing call (the state is
+ * undefined then).  The platform runs the same sequence on its own state and is compared after every call. */
+static int op_mbsq(char **w, int nw)
+{
+	uint8_t *seg[3];
+	long sl[3];
+	unsigned long long dstlen = 0, i;
+	int nodst, nseg = nw - 3, k, usenull, failed = 0;
+	mbstate_t ps, ps2;
+	if (nw < 5 || nw > 6) return 0;
+	usenull = !strcmp(w[1], "null");
+	if (!usenull && strcmp(w[1], "ps")) return 0;
+	nodst = !strcmp(w[2], "null");
+	if (!nodst && (!parse_ull(w[2], &dstlen) || dstlen > 64)) return 0;
+	for (k = 0; k < nseg; k++) {
+		sl[k] = hc_unhex(w[3 + k], &seg[k]);
+		if (sl[k] < 0) { while (k-- > 0) hfree(seg[k]); return 0; }
+	}
+	memset(&ps, 0, sizeof ps); memset(&ps2, 0, sizeof ps2);
+	for (k = 0; k < nseg; k++) {
+		wchar_t *d = NULL, *d2 = NULL;
+		const char *sp = (char *)seg[k], *sp2 = (char *)seg[k];
+		size_t r, r2;
+		int e2, in1, in2;
+		if (k) putchar(' ');
+		if (failed) { printf("skipped"); continue; }
+		if (!nodst) {
+			d = malloc(sizeof(wchar_t) * (dstlen ? dstlen : 1));
+			d2 = malloc(sizeof(wchar_t) * (dstlen ? dstlen : 1));
+			for (i = 0; i < dstlen; i++) d[i] = d2[i] = 0x7AAAAAAA;
+		}
+		ENTER();
+		r = mbsnrtowcs(d, &sp, sl[k], dstlen, usenull ? NULL : &ps);
+		LEAVE();
+		errno = 0;
+		r2 = g_mbsnrtowcs(d2, &sp2, sl[k], dstlen, usenull ? NULL : &ps2);
+		e2 = errno;
+		compared("mbsnrtowcs");
+		in1 = usenull ? -1 : !!mbsinit(&ps);
+		in2 = usenull ? -1 : !!mbsinit(&ps2);
+		if (r == (size_t)-1) printf("-1@"); else printf("%zu@", r);
+		put_off(sp, seg[k]);
+		printf("/%s/", errname(cur_errno));
+		if (usenull || r == (size_t)-1) putchar('-'); else printf("%d", in1);
+		putchar('/');
+		if (nodst || dstlen == 0) putchar('-');
+		for (i = 0; !nodst && i < dstlen; i++) printf("%s%x", i ? "," : "", (unsigned)d[i]);
+		if (r != r2 || sp != sp2 || in1 != in2 || (r == (size_t)-1 && cur_errno != e2) ||
+		    (!nodst && memcmp(d, d2, sizeof(wchar_t) * dstlen)))
+			plat("mbsnrtowcs", "call%d:%ld@%ld,init=%d,errno=%d\tcall%d:%ld@%ld,init=%d,errno=%d", k + 1, (long)r,
+			     sp ? (long)(sp - (char *)seg[k]) : -1, in1, r == (size_t)-1 ? cur_errno : 0, k + 1, (long)r2,
+			     sp2 ? (long)(sp2 - (char *)seg[k]) : -1, in2, r == (size_t)-1 ? e2 : 0);
+		if (r == (size_t)-1) failed = 1;
+		hfree(d); hfree(d2);
+	}
+	printf(" e=%s", errname(cur_errno));
+	for (k = 0; k < nseg; k++) hfree(seg[k]);
+	return 1;
+}
+
 /* ------------------------------------------------------------------ getline */
 static int op_getline(char **w, int nw)
 {
@@ -858,6 +920,7 @@ int main(void)
 			else if (!strcmp(op, "fmt")) ok = op_fmt(w, nw);
 			else if (!strcmp(op, "reallocarray")) ok = op_reallocarray(w, nw);
 			else if (!strcmp(op, "mbs")) ok = op_mbs(w, nw);
+			else if (!strcmp(op, "mbsq")) ok = op_mbsq(w, nw);
 			else if (!strcmp(op, "getline")) ok = op_getline(w, nw);
 			else if (!strcmp(op, "timegm")) ok = op_timegm(w, nw);
 			else if (!strcmp(op, "fnmatch")) ok = op_fnmatch(w, nw);
